@@ -203,3 +203,39 @@ theorem teardown_st (env : Env) (hooks : List Hook) (f r1 r2 : Bool) (n : Nat) :
         | (left; refine ⟨?_, ?_, by simp⟩ <;> simp)
 
 end EnvM
+
+namespace EnvM
+
+theorem goError_dst (s d : St) (h : dst? .GO_ERROR s = some d) : d = .ERROR := by
+  cases s <;> simp [dst?] at h <;> exact h.symm
+
+theorem isOk_moved (r : Result) (h : r.isOk = true) : r.keepsState = false := by
+  cases r <;> simp_all [Result.isOk, Result.keepsState]
+
+/-- The ControlEnvironment glue: either the request succeeded and nothing else
+    happened, or the environment ends in ERROR with the request's own result. -/
+theorem controlApi_cases (hooks : List Hook) (env : Env) (e : Ev) (b r : Bool) :
+    ((controlApi env hooks e b r).2.2.isOk = true ∧ controlApi env hooks e b r = tryTransition env hooks e b r) ∨
+    ((controlApi env hooks e b r).2.2.isOk = false ∧ (controlApi env hooks e b r).1.st = .ERROR ∧
+      (controlApi env hooks e b r).1.gone = env.gone ∧
+      (controlApi env hooks e b r).2.2 = (tryTransition env hooks e b r).2.2) := by
+  unfold controlApi
+  simp only
+  split
+  · rename_i h; exact Or.inl ⟨h, rfl⟩
+  · rename_i h
+    have hg1 : (tryTransition env hooks e b r).1.gone = env.gone := (fsmEvent_st env hooks e b r).1
+    split
+    · rename_i hgo
+      refine Or.inr ⟨by simpa using h, ?_, ?_, rfl⟩
+      · unfold tryTransition at hgo ⊢
+        obtain ⟨_, hk | ⟨d, hd, hst, _⟩⟩ := fsmEvent_st (fsmEvent env hooks e b r).1 hooks .GO_ERROR true false
+        · have := isOk_moved _ hgo; rw [hk.2] at this; cases this
+        · simp only; rw [hst]; exact goError_dst _ _ hd
+      · simp only; unfold tryTransition
+        rw [(fsmEvent_st (fsmEvent env hooks e b r).1 hooks .GO_ERROR true false).1]; exact hg1
+    · refine Or.inr ⟨by simpa using h, rfl, ?_, rfl⟩
+      simp only; unfold tryTransition
+      rw [(fsmEvent_st (fsmEvent env hooks e b r).1 hooks .GO_ERROR true false).1]; exact hg1
+
+end EnvM
